@@ -259,13 +259,31 @@ fn main() {
         n_corpus += 1;
         hist.add("style:corpus");
     }
-    // ---- generated programs ----
-    for i in 0..n_programs {
+    // ---- generated programs: first the exhaustive family (every AST with at most `exh_size` nodes over
+    // the small alphabet of ast::Enumerator), then the random ones ----
+    let exh_size: usize = args.extra.get("exh").and_then(|s| s.parse().ok()).unwrap_or(4);
+    let (exh_atoms, exh_ops) = (3usize, 3usize);
+    let mut exhaustive: Vec<ast::E> = if exh_size == 0 { vec![] } else { ast::Enumerator::new(exh_atoms, exh_ops).upto(exh_size) };
+    // thorough: additionally every AST with exactly exh_size + 1 nodes over the smaller alphabet (2 atoms,
+    // 2 operators); these only take part in the round trip (no span / token stream export)
+    let n_full_export = exhaustive.len();
+    let exh_deep = exh_size > 0 && args.thorough() && !args.extra.contains_key("nodeep");
+    if exh_deep {
+        exhaustive.extend(ast::Enumerator::new(2, 2).exact(exh_size + 1, true).iter().cloned());
+    }
+    let n_exhaustive = exhaustive.len();
+    let mut n_exh_cases = 0u64;
+    let mut n_exh_mismatch = 0u64;
+    for i in 0..(n_exhaustive + n_programs) {
+        let is_exh = i < n_exhaustive;
         let size = 1 + (i % max_size) + if rng.chance(1, 10) { rng.below(6) as usize } else { 0 };
-        let prog = {
+        let prog = if is_exh {
+            ast::wrap_prelude(exhaustive[i].clone(), &ops)
+        } else {
             let mut g = ast::Gen::new(&mut rng);
             g.program(size)
         };
+        hist.add(if is_exh { "family:exhaustive" } else { "family:random" });
         let mut expected = String::new();
         ast::show(&prog, &ops, &mut expected);
         let construct = construct_of(&prog);
@@ -280,6 +298,12 @@ fn main() {
             let (line, spans, _p) = run_impl(&src);
             if dump && line != expected {
                 println!("!!! MISMATCH\n expected {}\n impl     {}", expected, line);
+            }
+            if is_exh {
+                n_exh_cases += 1;
+                if line != expected {
+                    n_exh_mismatch += 1;
+                }
             }
             if line != expected {
                 rt_mismatch += 1;
@@ -306,6 +330,9 @@ fn main() {
                 n_rt_nontrivial += 1;
             }
             let parsed_ok = spans.is_some();
+            if is_exh && i >= n_full_export {
+                continue;
+            }
             if let Some(sp) = spans {
                 writeln!(f_span, "S {};{}", real::hex(src.as_bytes()), sp.trim_end()).unwrap();
                 writeln!(f_spanc, "gen\t{}\t{}", style.name(), serde_json::to_string(&src).unwrap()).unwrap();
@@ -396,6 +423,11 @@ fn main() {
             "distinct_nontrivial": n_rt_nontrivial,
             "rule": "round trip: one case per (generated program, style); non-trivial = AST of at least 3 nodes, distinct by source text",
             "programs": n_programs,
+            "exhaustive_programs": n_exhaustive,
+            "exhaustive_cases": n_exh_cases,
+            "exhaustive_mismatch": n_exh_mismatch,
+            "exhaustive_bound": format!("every AST with at most {} nodes{} over the alphabet: {} atoms (x, y, 1), [], (), {{}}, {{ a }}; operators {} of (+++ infixl 5, *** infixr 5, <<< infixl 7); patterns x, A y; constructs application (1-2 args), lambda, if, match (1-2 alternatives), infix, projection, array (0-2), tuple (0, 2), record (field, field + base), let (value / function), rec let, type, sequence (2-3 statements), do; each in all four styles (one printer seed per style)", exh_size,
+                if exh_deep { format!(" (and every AST with exactly {} nodes over 2 atoms and 2 operators, round trip only)", exh_size + 1) } else { String::new() }, exh_atoms, exh_ops),
             "corpus_cases": n_corpus,
             "max_size": max_size,
             "rt_mismatch": rt_mismatch,
